@@ -95,8 +95,11 @@ def run_abort(case, chooser):
           # the executor-based backend: every file operation is a job whose completion the explorer orders against
           # the ABOR (the cancellation then lands while a job is in flight)
           "async": dict(backend="async")}[case["backend"]]
-    rig = Rig(chooser=chooser, n_sessions=1, tree=tree(size), spy=spy, window=1,
-              server_kwargs={"block_size": B, "wait_future_timeout": 1}, **bk)
+    skw = {"block_size": B, "wait_future_timeout": 1}
+    if case.get("throttle"):
+        # a speed limit: the worker sits in a throttle pause when the ABOR arrives
+        skw["write_speed_limit_per_connection" if case["throttle"] == "write" else "read_speed_limit_per_connection"] = B
+    rig = Rig(chooser=chooser, n_sessions=1, tree=tree(size), spy=spy, window=1, server_kwargs=skw, **bk)
     problems = []
     try:
         w = rig.world
@@ -127,7 +130,8 @@ def run_abort(case, chooser):
                     s.data.close()
                 else:
                     s.data.reset()
-            s.ctl.send(b"ABOR\r\n")
+            # (pipe: the next command travels in the same segment as the ABOR)
+            s.ctl.send(b"ABOR\r\n" + (case["pipe"].encode() + b"\r\n" if case.get("pipe") else b""))
 
         def on_event(nev):
             if state["armed"] and not state["sent"] and nev == k:
@@ -160,7 +164,7 @@ def run_abort(case, chooser):
                 return {"problems": [], "reached": False, "events": nev_total, "trace": "", "outcome": ""}
             # position beyond the last event: ABOR after everything has finished
             with Running(w.loop):
-                s.ctl.send(b"ABOR\r\n")
+                s.ctl.send(b"ABOR\r\n" + (case["pipe"].encode() + b"\r\n" if case.get("pipe") else b""))
             state["sent"] = True
             w.settle()
             rig.collect()
@@ -169,6 +173,14 @@ def run_abort(case, chooser):
         sig = {"verb": verb, "data_conn": data_conn}
         if s.closed():
             problems.append({"kind": "session-closed-by-abort", "codes": codes})
+        if case.get("pipe") and state["sent"] and not case.get("probe"):
+            # replies come in the order of the commands: the ABOR's answer, then the pipelined command's
+            tail = {"SYST": "215", "ABOR": "226", "PWD": "257"}[case["pipe"]]
+            if codes[-1:] != [tail]:
+                problems.append({"kind": "pipelined-command-answered-out-of-order-or-not-at-all", "pipe": case["pipe"],
+                                 "codes": codes})
+            else:
+                codes = codes[:-1]
         why = acceptable(codes, state["early"], allow_running=case.get("noread", False))
         if why and case.get("giveup"):
             # the transfer may have failed on the lost data connection by itself: 1xx, one failure (or completion)
@@ -333,6 +345,18 @@ def build_items(tier):
                 case = {"verb": verb, "size": size, "k": k, "backend": "async", "followup": "again" if k % 2 else "pwd",
                         "data_conn": True}
                 items.append((case, 1, kinds))
+    # a speed-limited server (the worker is sitting out a throttle pause) and the next command right behind the ABOR
+    for verb in ("RETR", "STOR", "LIST"):
+        for throttle in ("write", "read", None):
+            for pipe in ("SYST", "ABOR", "PWD"):
+                size = 3 * B
+                probe = {"verb": verb, "size": size, "k": 10 ** 9, "backend": "memory", "followup": "pwd", "data_conn": True,
+                         "probe": True, "throttle": throttle}
+                n = run_abort(probe, Chooser())["events"]
+                for k in range(1, n + 2):
+                    case = {"verb": verb, "size": size, "k": k, "backend": "memory", "followup": "again" if k % 2 else "pwd",
+                            "data_conn": True, "throttle": throttle, "pipe": pipe}
+                    items.append((case, 1 if tier == "quick" else 2, kinds))
     # the client drops its data connection (close / reset) right before it says ABOR
     for verb in ("RETR", "STOR", "LIST"):
         for giveup in ("close", "reset"):
@@ -403,7 +427,7 @@ def run(tier, seed, t0):
               "backends": ["memory", "slow(0.125s completion latency)", "AsyncPathIO (every operation an executor job)"],
               "abort_positions": "k=0 (same segment as the verb) and after every network event k=1..N+1 counted from "
                                  "the transfer verb, with and without a data connection",
-              "followups": FOLLOWUPS + ["reuse: next transfer over a data connection made in advance, no new PASV"], "data_peer": ["reading", "connected but not reading (RETR/LIST/MLSD)", "closes / resets its data connection right before ABOR"], "deviation_bound": 1 if tier == "quick" else 3, "send_window": "lock-step", "cases": len(items)}
+              "throttled": "server write / read limit of one block per second, next command (SYST, ABOR, PWD) in the ABOR's segment", "followups": FOLLOWUPS + ["reuse: next transfer over a data connection made in advance, no new PASV"], "data_peer": ["reading", "connected but not reading (RETR/LIST/MLSD)", "closes / resets its data connection right before ABOR"], "deviation_bound": 1 if tier == "quick" else 3, "send_window": "lock-step", "cases": len(items)}
     return report.finish(
         PID, tier, seed, "model_checking", part, t0,
         rule="case = (verb, size, abort position, backend, follow-up); every schedule with <= bound deviations from the "
